@@ -138,7 +138,7 @@ func c20PairClasses(r *ev.Rand) map[string][]devino {
 func c20LocalPairs(c *ev.Ctx) {
 	r := c.Rand("c20pairs")
 	classes := c20PairClasses(r)
-	reps := c.Sz(1, 40)
+	reps := c.Sz(1, 200)
 	first := map[devino]uint64{}
 	owner := map[uint64]devino{}
 	var mu sync.Mutex
@@ -187,7 +187,7 @@ func c20LocalPairs(c *ev.Ctx) {
 	}
 	// concurrent lookups of fresh and known pairs
 	var fresh []devino
-	for k := 0; k < c.Sz(2000, 50000); k++ {
+	for k := 0; k < c.Sz(2000, 400000); k++ {
 		fresh = append(fresh, devino{r.U64() | 1<<40, r.U64()})
 	}
 	var wg sync.WaitGroup
@@ -289,7 +289,7 @@ func c20RealFiles(c *ev.Ctx) {
 // ---- (b) mapper ----
 
 func c20Mapper(c *ev.Ctx) {
-	rounds := c.Sz(30, 600)
+	rounds := c.Sz(30, 3000)
 	for round := 0; round < rounds; round++ {
 		g := &qids.PathGenerator{}
 		m1 := qids.NewMapper(g)
@@ -357,7 +357,7 @@ func c20Served(c *ev.Ctx) {
 		os.WriteFile(filepath.Join(dir, n), []byte(n), 0644)
 	}
 	st, _ := staticfs.New(staticfs.WithFile("s1", "one"), staticfs.WithFile("s2", "two"))
-	rounds := c.Sz(6, 120)
+	rounds := c.Sz(6, 600)
 	for round := 0; round < rounds; round++ {
 		fs, err := composefs.New(
 			composefs.WithMount("local", localfs.Attacher(dir)),
